@@ -93,6 +93,7 @@ type rtAnswer struct {
 
 // QRec is one work-queue event.
 type QRec struct {
+	Seq   int // position in the run's global arrival order (shared with requests, hook calls and errors)
 	Step  int
 	Inc   int
 	Queue string
@@ -103,8 +104,10 @@ type QRec struct {
 
 // ErrRec is one error reported through utilruntime.HandleError.
 type ErrRec struct {
+	Seq  int
 	Step int
 	Inc  int
+	Gid  int
 	Msg  string
 	Time time.Duration
 }
@@ -329,7 +332,8 @@ func (w *World) QueueEvent(queue, kind string) {
 			ws.active = false
 		}
 	}
-	w.QEvents = append(w.QEvents, QRec{Step: w.step, Inc: w.inc, Queue: queue, Kind: kind, Gid: gid, Time: time.Since(w.start)})
+	w.arrivals++
+	w.QEvents = append(w.QEvents, QRec{Seq: w.arrivals, Step: w.step, Inc: w.inc, Queue: queue, Kind: kind, Gid: gid, Time: time.Since(w.start)})
 	if traceQ {
 		pcs := make([]uintptr, 40)
 		n := runtime.Callers(2, pcs)
@@ -356,9 +360,11 @@ var traceQ = os.Getenv("DST_TRACEQ") != ""
 
 // ReportError is installed as a utilruntime error handler.
 func (w *World) ReportError(msg string) {
+	gid := curGid()
 	w.mu.Lock()
 	defer w.mu.Unlock()
-	w.Errs = append(w.Errs, ErrRec{Step: w.step, Inc: w.inc, Msg: msg, Time: time.Since(w.start)})
+	w.arrivals++
+	w.Errs = append(w.Errs, ErrRec{Seq: w.arrivals, Step: w.step, Inc: w.inc, Gid: gid, Msg: msg, Time: time.Since(w.start)})
 	w.asyncLog = append(w.asyncLog, "err")
 }
 
